@@ -27,14 +27,20 @@
     rerun_converges_pull         pull, full strength in the prune configuration: the repeated pull SUCCEEDS (honest
                                  registry serving every layer), manifest files equal the uninterrupted run's, invariant
   All theorems are stated for `restartWith env` (start-up with or without OLLAMA_NOPRUNE).
-  Partial: the pull case of `exec_seqOK`/`crash_safe` assumes `PullPre` (debris of earlier pulls is
-  CONSISTENT: a readable part record describes the blob and the bytes it declares complete are in the
-  `-partial` file; any store without debris satisfies it, `opOK_of_noDebris`); that crashes of pull
-  re-establish `PullPre` is not proved (L1/L2 on stores S2–S4 cover it).  `rerun_converges` for create is
-  not a theorem (client re-upload after prune, recorded blob size needs collision-freeness); F19a/F19b are
-  the Lean-checked counterexamples for the pinned variant.
+  The pull case of `exec_seqOK`/`crash_safe` takes `PullPre` (debris of earlier pulls is CONSISTENT: a
+  readable part record describes the blob and the bytes it declares complete are in the `-partial` file)
+  as a hypothesis.  Round 7 (`Proofs/StoreCrashReach.lean`) DISCHARGES it: consistency of the debris is an
+  invariant of every effect of every operation at every crash prefix and of the start-up sequence
+  (`exec_seqDeb`, `debInv_crash`), hence of every store reachable by any history (`Reach`):
+    reach_inv                       every reachable store: Inv ∧ consistent debris (∧ whole records, fixed variant)
+    crash_safe_reachable            clauses 1+2 from every reachable store, no debris hypothesis
+    reach_allReadable               fixed manifest writes: no reachable store has a torn manifest
+    pull_succeeds_reachable         fixed variant: from EVERY reachable store a pull (honest, total registry) succeeds
+    rerun_converges_pull_reachable  clause 3 for pull from every reachable store, BOTH start-up configurations
+  `rerun_converges` for create is not a theorem (client re-upload after prune, recorded blob size needs
+  collision-freeness); F19a/F19b are the Lean-checked counterexamples for the pinned variant.
 -/
-import OllamaVerif.Proofs.StoreCrash
+import OllamaVerif.Proofs.StoreCrashReach
 namespace OllamaVerif.C12
 open OllamaVerif OllamaVerif.StoreCrash
 
@@ -225,7 +231,7 @@ theorem rerun_converges_partial {hash : Bytes → Digest} {env : Env} (henv : En
     · subst hn
       cases hr : readable st n' with
       | some m =>
-        simp only [hr, Option.isSome_some, and_self, ↓reduceIte, or_self] at Gd ⊢
+        simp only [hr, Option.isSome_some, and_self, ↓reduceIte] at Gd ⊢
         rcases Gd with h | h
         · have : readable st1 n' = some m := by
             rw [readable_eq_some, h]; exact readable_eq_some.mp hr
@@ -426,5 +432,146 @@ theorem F26_blind_lister_prunes_every_blob :
   obtain ⟨bs, hb, _⟩ := h "a" wMan1 (by decide) ⟨"d1", 1⟩ (by decide)
   have : get (pruneBlind wStoreA) (.blob "d1") = none := by decide
   rw [this] at hb; cases hb
+
+/-! ## Round 7 — every history: the debris hypothesis is discharged, not assumed
+
+`world d` = the bytes behind digest `d` (what every honest registry serves for it).  `Reach env world st`
+= `st` is reachable from the empty store by ANY sequence of operations, each run to ANY crash prefix
+of its effect list (the complete list included; last data write cut at any byte), and start-up
+sequences, the registry of each pull serving a part of `world` (`OpW`).  No hypothesis on debris, on
+readability of manifests or on the configuration. -/
+
+/-- Every reachable store satisfies the store invariant and has consistent download debris (and, with
+the fixed `writePart`, no torn part record): `PullPre` — the named hypothesis of `crash_safe` for pull —
+holds in every state the server can be in. -/
+theorem reach_inv {hash : Bytes → Digest} {env : Env} {world : Digest → Option Bytes} (henv : EnvOK hash env)
+    (hworld : ∀ d data, world d = some data → hash data = d) {st : Store} (h : Reach env world st) :
+    Inv hash st ∧ DebInv env.atomicPart world st := by
+  refine ⟨?_, reach_debInv henv.chunk_flatten h⟩
+  induction h with
+  | init => exact ⟨fun d c hg => (by cases hg), fun n m hr => (by simp [readable, StoreCrash.get] at hr)⟩
+  | @crash st op p hr hop hp ih =>
+    have hdeb := reach_debInv henv.chunk_flatten hr
+    have hopOK : OpOK hash st op := by
+      cases op with
+      | pull reg n m => exact ⟨fun d data h => hworld d data (hop d data h), hdeb.1.pullPre reg hop _⟩
+      | upload k d body => trivial
+      | create n ups file datas cfg => trivial
+      | copy src dst => trivial
+      | delete n => trivial
+    exact StoreCrash.seq_preserves_inv ih (seqOK_crashPrefix (exec_seqOK henv ih op hopOK) hp)
+  | restart _ ih => exact StoreCrash.restartWith_preserves_inv env ih
+
+theorem opOK_of_reach {hash : Bytes → Digest} {env : Env} {world : Digest → Option Bytes} (henv : EnvOK hash env)
+    (hworld : ∀ d data, world d = some data → hash data = d) {st : Store} (h : Reach env world st)
+    (op : Op) (hop : OpW world op) : OpOK hash st op := by
+  have hdeb := (reach_inv henv hworld h).2
+  cases op with
+  | pull reg n m => exact ⟨fun d data h => hworld d data (hop d data h), hdeb.1.pullPre reg hop _⟩
+  | upload k d body => trivial
+  | create n ups file datas cfg => trivial
+  | copy src dst => trivial
+  | delete n => trivial
+
+/-- **C12, clauses 1 and 2, for every history.**  From ANY reachable store (any earlier crashes, any
+debris they left, torn manifests in the pinned variant), every operation, every crash prefix: after the
+start-up sequence every readable manifest has all layers present and hashing to their names, and
+uninvolved names keep their manifest and blobs.  No `PullPre`/`OpOK` hypothesis. -/
+theorem crash_safe_reachable {hash : Bytes → Digest} {env : Env} {world : Digest → Option Bytes}
+    (henv : EnvOK hash env) (hworld : ∀ d data, world d = some data → hash data = d)
+    {st : Store} (hr : Reach env world st) (op : Op) (hop : OpW world op) (p : List Effect)
+    (hp : CrashPrefix (op.exec env st).effs p) :
+    NameInv hash (restartWith env (run p st)) ∧
+    Inv hash (restartWith env (run p st)) ∧
+    (∀ n, n ∉ op.involved → Untouched n st (restartWith env (run p st))) ∧
+    Reach env world (restartWith env (run p st)) :=
+  have h := crash_safe henv (reach_inv henv hworld hr).1 op (opOK_of_reach henv hworld hr op hop) p hp
+  ⟨h.1, h.2.1, h.2.2, .restart (.crash op p hr hop hp)⟩
+
+/-- fixed manifest writes: no reachable store has a torn manifest -/
+theorem reach_allReadable {env : Env} {world : Digest → Option Bytes} (hat : env.atomicMan = true)
+    {st : Store} (h : Reach env world st) : allReadable st = true := by
+  induction h with
+  | init => rfl
+  | @crash st op p _ _ hp ih => exact atomic_never_torn_run hat op st ih p hp
+  | @restart st _ ih =>
+    rw [allReadable_iff] at ih ⊢
+    intro n c hg
+    rw [(StoreCrash.restartWith_untouched env n st).1] at hg
+    exact ih n c hg
+
+/-- **Fixed variant: from every reachable store a pull succeeds** (honest registry serving every layer
+of the manifest) — whatever earlier crashes left behind, with or without `OLLAMA_NOPRUNE`. -/
+theorem pull_succeeds_reachable {hash : Bytes → Digest} {env : Env} {world : Digest → Option Bytes}
+    (henv : EnvOK hash env) (hworld : ∀ d data, world d = some data → hash data = d)
+    (hap : env.atomicPart = true) {st : Store} (hr : Reach env world st)
+    (reg : Digest → Option Bytes) (hsub : ∀ d data, reg d = some data → world d = some data)
+    (n : Name) (m : Man) (htot : ∀ l ∈ m.all, (reg l.digest).isSome = true) :
+    ((Op.pull reg n m).exec env st).ok = true := by
+  have h := reach_inv henv hworld hr
+  rw [hap] at h
+  exact pull_ok_whole env henv.hash_eq hap henv.chunk_flatten reg
+    (fun d data hd => hworld d data (hsub d data hd)) hsub n m htot st h.1 h.2
+
+/-- **C12, clause 3 for pull, every history, both start-up configurations (fixed variant).**  From any
+reachable store: kill the pull anywhere, run the start-up sequence (prune or `OLLAMA_NOPRUNE`), pull
+again: the repeated pull SUCCEEDS, every manifest file is what the uninterrupted pull leaves, the
+invariant holds.  (Replaces the hypotheses `noPrune = false`, `allReadable`, `PullPre`, "the
+uninterrupted pull succeeds" of `rerun_converges_pull`.) -/
+theorem rerun_converges_pull_reachable {hash : Bytes → Digest} {env : Env} {world : Digest → Option Bytes}
+    (henv : EnvOK hash env) (hworld : ∀ d data, world d = some data → hash data = d)
+    (hat : env.atomicMan = true) (hap : env.atomicPart = true) {st : Store} (hr : Reach env world st)
+    (reg : Digest → Option Bytes) (hsub : ∀ d data, reg d = some data → world d = some data)
+    (n : Name) (m : Man) (htot : ∀ l ∈ m.all, (reg l.digest).isSome = true)
+    (p : List Effect) (hp : CrashPrefix ((Op.pull reg n m).exec env st).effs p) :
+    ((Op.pull reg n m).exec env (restartWith env (run p st))).ok = true ∧
+    (∀ n', get (run ((Op.pull reg n m).exec env (restartWith env (run p st))).effs (restartWith env (run p st))) (.man n') =
+           get (run ((Op.pull reg n m).exec env st).effs st) (.man n')) ∧
+    Inv hash (run ((Op.pull reg n m).exec env (restartWith env (run p st))).effs (restartWith env (run p st))) := by
+  have hr1 : Reach env world (restartWith env (run p st)) := .restart (.crash (.pull reg n m) p hr hsub hp)
+  have hok0 := pull_succeeds_reachable henv hworld hap hr reg hsub n m htot
+  have hok1 := pull_succeeds_reachable henv hworld hap hr1 reg hsub n m htot
+  refine ⟨hok1, rerun_converges_pull_partial hat reg n m st p hp (hok1.trans hok0.symm), ?_⟩
+  have hr2 : Reach env world (run ((Op.pull reg n m).exec env (restartWith env (run p st))).effs (restartWith env (run p st))) :=
+    .crash (.pull reg n m) _ hr1 hsub ⟨((Op.pull reg n m).exec env (restartWith env (run p st))).effs.length, Or.inl (by simp)⟩
+  exact (reach_inv henv hworld hr2).1
+
+/-! ### the new hypotheses are satisfiable by a non-trivial value -/
+
+theorem crashPrefix_full (es : List Effect) : CrashPrefix es es := ⟨es.length, Or.inl (by simp)⟩
+
+theorem wReg_honest : ∀ d data, wReg d = some data → wHash data = d := by
+  intro d data h
+  simp only [wReg] at h
+  split at h
+  · injection h with h; subst h; rename_i hd; subst hd; decide
+  · cases h
+
+/-- a history: upload blob d1, "pull" model a whose only layer is already there, then `pull f` (which has
+to download d2) killed after its 9th effect -/
+def wH1 : Store := run ((Op.upload 0 "d1" [1]).exec wEnvA []).effs []
+def wH2 : Store := run ((Op.pull (fun _ => none) "a" wMan1).exec wEnvA wH1).effs wH1
+def wH3 : Store := run ((wPull.exec wEnvA wH2).effs.take 9) wH2
+
+theorem wH2_reach : Reach wEnvA wReg wH2 :=
+  .crash (.pull (fun _ => none) "a" wMan1) _
+    (.crash (.upload 0 "d1" [1]) _ .init trivial (crashPrefix_full _))
+    (fun _ _ h => by cases h) (crashPrefix_full _)
+
+theorem wH3_reach : Reach wEnvA wReg wH3 :=
+  .crash wPull _ wH2_reach (fun _ _ h => h) ⟨9, Or.inl rfl⟩
+
+/-- the reachable store `wH3` really has debris: model a is readable, the part record of d2 says
+`Completed = 0` of 1 byte while the `-partial` file already holds that byte; the pull from there RESUMES (13 effects
+instead of the 17 of a fresh pull) and succeeds — an instance of `pull_succeeds_reachable` /
+`rerun_converges_pull_reachable` under `OLLAMA_NOPRUNE`-like conditions (nothing pruned) -/
+example : readable wH3 "a" = some wMan1 ∧
+    get wH3 (.part "d2" 0) = some (.prec ⟨0, 0, 1, 0⟩) ∧ get wH3 (.pfile "d2") = some (.raw [2]) ∧
+    (wPull.exec wEnvA wH3).ok = true ∧ (wPull.exec wEnvA wH3).effs.length = 13 ∧
+    (wPull.exec wEnvA wH2).effs.length = 17 := by decide
+
+example : ((Op.pull wReg "f" wMan2).exec wEnvA wH3).ok = true :=
+  pull_succeeds_reachable (hash := wHash) ⟨rfl, fun bs => by simp [wEnvA, wEnv], fun _ _ h => h⟩ wReg_honest rfl
+    wH3_reach wReg (fun _ _ h => h) "f" wMan2 (by decide)
 
 end OllamaVerif.C12
